@@ -31,10 +31,6 @@ func max(a, b int) int {
 }
 
 func Render(w io.Writer, tm *t.Map, src []t.Token, comments []string) (err error) {
-	if len(src) == 0 {
-		return nil
-	}
-
 	const maxIndent = 0xFFFF
 	indent := 0
 	buf := make([]byte, 0, 1024)
@@ -43,7 +39,12 @@ func Render(w io.Writer, tm *t.Map, src []t.Token, comments []string) (err error
 	inStruct := false
 	varNameLength := uint32(0)
 
-	prevLine := src[0].Line - 1
+	// With no tokens at all (a source that is only comments), start past every
+	// comment line so that no blank line precedes the first comment.
+	prevLine := uint32(len(comments))
+	if len(src) > 0 {
+		prevLine = src[0].Line - 1
+	}
 	prevLineHanging := false
 
 	for len(src) > 0 {
